@@ -334,17 +334,23 @@ impl RegretParams {
             strat.fill(0.0);
             strat[ind] = 1.0;
         } else {
-            let max = cum_reg
+            // NOTE shift by the regret with the largest scaled value so exponents are never
+            // positive; a negative weight favors the smallest regret
+            let extreme = cum_reg
                 .into_floats_mut()
                 .map(|&mut v| v)
-                .reduce(f64::max)
+                .reduce(if self.no_positive > 0.0 {
+                    f64::max
+                } else {
+                    f64::min
+                })
                 .unwrap();
             let norm: f64 = cum_reg
                 .into_floats_mut()
-                .map(|&mut reg| ((reg - max) * self.no_positive).exp())
+                .map(|&mut reg| ((reg - extreme) * self.no_positive).exp())
                 .sum();
             for (&mut reg, val) in cum_reg.into_floats_mut().zip(strat.iter_mut()) {
-                *val = ((reg - max) * self.no_positive).exp() / norm;
+                *val = ((reg - extreme) * self.no_positive).exp() / norm;
             }
         }
     }
